@@ -18,23 +18,25 @@ CANARY_RLIMIT = 20
 VERUS_EXTRA = ['--no-trait-conflicts']
 MAX_ARITY = 9
 
-METHODS0 = ['new', 'insert', 'contains', 'remove', 'is_empty', 'clear', 'union', 'difference']
-METHODS1 = ['new', 'insert', 'contains', 'remove', 'is_empty', 'clear', 'get', 'union', 'difference', 'insert_restriction', 'remove_restriction']
-METHODSN = ['new', 'insert', 'contains', 'remove', 'is_empty', 'clear', 'get', 'get_mut', 'union', 'difference', 'insert_restriction', 'remove_restriction']
+METHODS0 = ['new', 'insert', 'contains', 'remove', 'is_empty', 'clear', 'union', 'difference', 'mapped']
+METHODS1 = ['new', 'insert', 'contains', 'remove', 'is_empty', 'clear', 'get', 'union', 'difference', 'insert_restriction', 'remove_restriction', 'mapped']
+METHODSN = ['new', 'insert', 'contains', 'remove', 'is_empty', 'clear', 'get', 'get_mut', 'union', 'difference', 'insert_restriction', 'remove_restriction', 'mapped']
 
 
-def methods(n):
-    return METHODS0 if n == 0 else METHODS1 if n == 1 else METHODSN
+def methods(n, with_mapped=True):
+    m = METHODS0 if n == 0 else METHODS1 if n == 1 else METHODSN
+    return m if with_mapped else [x for x in m if x != 'mapped']
 
 
 def exec_funcs(arities=None):
     ar = range(MAX_ARITY + 1) if arities is None else arities
-    return list(wbapi.EXEC_FUNCS) + ['PrefixTree%d::%s' % (n, m) for n in ar for m in methods(n)]
+    wm = 2 in ar and 1 in ar      # `mapped` takes its maps as PrefixTree2 values and reads them through PrefixTree1 restrictions
+    return list(wbapi.EXEC_FUNCS) + ['PrefixTree%d::%s' % (n, m) for n in ar for m in methods(n, wm)]
 
 
 DROPPED = ['#[derive(Clone, Debug)] on the structs (Clone is replaced by an assumed structural clone; Debug is not needed)',
            'struct UnsafeSync, the `empty()` statics, PrefixTree0::non_empty body (declared by contract: returns a tree holding the empty tuple)',
-           'iter, iter_restrictions, iter_restrictions_mut, mapped for every arity (iterator adapters; bounded stand-in only)',
+           'iter, iter_restrictions, iter_restrictions_mut for every arity (iterator adapters; bounded stand-in only)',
            ] + wbapi.DROPPED
 
 ALLOW_TRUSTED = wbapi.ALLOW_TRUSTED + ['assume_specification core::option::Option::<T>::map_or', 'external_body fn non_empty', 'assume_specification core::option::Option::<T>::or']
@@ -45,6 +47,7 @@ SAMPLES = [
     'PrefixTreeN::is_empty() -> b: requires wf; ensures b <==> forall t. !self@.contains(t)',
     'PrefixTreeN::get(k) -> r: Some(s) => s@ == { t | [k]++t in self@ } and s non-empty, None => no tuple starts with k',
     'PrefixTreeN::remove_restriction(k, r): ensures final.wf, final@ =~= old@.difference(prefixed(k, r@))',
+    'PrefixTreeN::mapped(map0..) -> r: requires wf, maps wf; ensures r.wf, r@ =~= { t | exists u in self@. forall i. map_el(map_i, u[i]) == Some(t[i]) } (map_el = identity without a map, else the smallest image)',
 ]
 
 HEADER = wbapi.HEADER
@@ -63,27 +66,215 @@ E = 'ISet::<Seq<u32>>::empty()'
 def ghost_impl(n):
     if n == 0:
         return '''
+    #[verifier::opaque]
     pub open spec fn view(&self) -> ISet<Seq<u32>> { ISet::new(|t: Seq<u32>| t.len() == 0 && self.0 is Some) }
+    #[verifier::opaque]
     pub open spec fn wf(&self) -> bool { true }
     #[verifier::external_body]
     fn non_empty() -> (r: &'static Self) ensures r.0 is Some { unimplemented!() }
 '''
     if n == 1:
         return '''
+    #[verifier::opaque]
     pub open spec fn view(&self) -> ISet<Seq<u32>> { ISet::new(|t: Seq<u32>| t.len() == 1 && self.set@.contains(t[0])) }
+    #[verifier::opaque]
     pub open spec fn wf(&self) -> bool { self.set.wf() }
-    pub proof fn lemma_len(&self, t: Seq<u32>) requires self@.contains(t) ensures t.len() == 1 {}
+    pub proof fn lemma_len(&self, t: Seq<u32>) requires self@.contains(t) ensures t.len() == 1 { reveal(PrefixTree1::view); }
 '''
+    # view and wf are opaque and revealed per function: a function of arity n sees the definitions of arity n only (the subtrees'
+    # views stay abstract), otherwise every query unfolds the whole tower of arities
     return '''
+    #[verifier::opaque]
     pub open spec fn view(&self) -> ISet<Seq<u32>> {
         ISet::new(|t: Seq<u32>| t.len() == %d && self.map@.contains_key(t[0]) && self.map@[t[0]]@.contains(t.skip(1)))
     }
     /// the inner map is well-formed, every subtree is well-formed, and NO KEY MAPS TO AN EMPTY SUBTREE
+    #[verifier::opaque]
     pub open spec fn wf(&self) -> bool {
         self.map.wf() && forall|k: u32| #[trigger] self.map@.contains_key(k) ==> self.map@[k].wf() && nonempty(self.map@[k]@)
     }
-    pub proof fn lemma_len(&self, t: Seq<u32>) requires self@.contains(t) ensures t.len() == %d {}
-''' % (n, n)
+    pub proof fn lemma_len(&self, t: Seq<u32>) requires self@.contains(t) ensures t.len() == %d { reveal(PrefixTree%d::view); }
+''' % (n, n, n)
+
+
+
+def ghost_mapped(n):
+    """ghost members used by the proof of `mapped` (loop vocabulary + the completion lemma)"""
+    if n == 0:
+        return ''
+    if n == 1:
+        return """
+    /// `s` enumerates the source set and `self` holds exactly the images of the enumerated elements
+    pub open spec fn mapped_enum(&self, src: Self, map0: Option<PrefixTree2>, s: Seq<u32>) -> bool {
+        &&& forall|i: int| 0 <= i < s.len() ==> src.set@.contains(#[trigger] s[i])
+        &&& forall|k: u32| #[trigger] src.set@.contains(k) ==> exists|i: int| 0 <= i < s.len() && #[trigger] s[i] == k
+        &&& forall|y: u32| #[trigger] self.set@.contains(y) <==> exists|i: int| 0 <= i < s.len() && #[trigger] map_el(map0, s[i]) == Some(y)
+    }
+    pub proof fn lemma_mapped_done(&self, src: Self, map0: Option<PrefixTree2>)
+        ensures forall|s: Seq<u32>| #[trigger] self.mapped_enum(src, map0, s) ==> self@ =~= mapped_set(src@, seq![map0]),
+    {
+        reveal(mapped_set); reveal(PrefixTree1::view);
+        assert forall|s: Seq<u32>| #[trigger] self.mapped_enum(src, map0, s) implies self@ =~= mapped_set(src@, seq![map0]) by {
+            assert forall|t: Seq<u32>| self@.contains(t) <==> mapped_set(src@, seq![map0]).contains(t) by {
+                if self@.contains(t) {
+                    let i = choose|i: int| 0 <= i < s.len() && #[trigger] map_el(map0, s[i]) == Some(t[0]);
+                    let u = seq![s[i]];
+                    assert(src@.contains(u));
+                    assert(map_el(seq![map0][0], u[0]) == Some(t[0]));
+                }
+                if mapped_set(src@, seq![map0]).contains(t) {
+                    let u = choose|u: Seq<u32>| #[trigger] src@.contains(u) && u.len() == 1 && forall|i: int| 0 <= i < 1 ==> map_el(seq![map0][i], u[i]) == Some(t[i]);
+                    assert(map_el(seq![map0][0], u[0]) == Some(t[0]));
+                    let i = choose|i: int| 0 <= i < s.len() && #[trigger] s[i] == u[0];
+                    assert(map_el(map0, s[i]) == Some(t[0]));
+                }
+            }
+        }
+    }
+"""
+    return """
+    /// tuple t arises from the entry e = (k, subtree): its head is the image of k and its tail a mapped tuple of the subtree
+    pub open spec fn mapped_hit(e: (u32, &%(CH)s), ms: Seq<Option<PrefixTree2>>, t: Seq<u32>) -> bool {
+        t.len() == %(N)d && map_el(ms[0], e.0) == Some(t[0]) && mapped_set(e.1@, ms.skip(1)).contains(t.skip(1))
+    }
+    /// `s` enumerates the entries of the source's inner map and `self` holds exactly the tuples arising from the enumerated entries
+    pub open spec fn mapped_enum(&self, src: Self, ms: Seq<Option<PrefixTree2>>, s: Seq<(u32, &%(CH)s)>) -> bool {
+        &&& forall|i: int| 0 <= i < s.len() ==> src.map@.contains_key((#[trigger] s[i]).0) && src.map@[s[i].0] == *s[i].1
+        &&& forall|k: u32| #[trigger] src.map@.contains_key(k) ==> exists|i: int| 0 <= i < s.len() && (#[trigger] s[i]).0 == k
+        &&& forall|t: Seq<u32>| #[trigger] self@.contains(t) <==> exists|i: int| 0 <= i < s.len() && Self::mapped_hit(#[trigger] s[i], ms, t)
+    }
+    pub proof fn lemma_mapped_done(&self, src: Self, ms: Seq<Option<PrefixTree2>>)
+        requires ms.len() == %(N)d, src.wf(),
+        ensures forall|s: Seq<(u32, &%(CH)s)>| #[trigger] self.mapped_enum(src, ms, s) ==> self@ =~= mapped_set(src@, ms),
+    {
+        let ms1 = ms.skip(1);
+        reveal(mapped_set); reveal(PrefixTree%(N)d::view); reveal(PrefixTree%(N)d::wf);
+        assert forall|s: Seq<(u32, &%(CH)s)>| #[trigger] self.mapped_enum(src, ms, s) implies self@ =~= mapped_set(src@, ms) by {
+            assert forall|t: Seq<u32>| self@.contains(t) <==> mapped_set(src@, ms).contains(t) by {
+                if self@.contains(t) {
+                    let i = choose|i: int| 0 <= i < s.len() && Self::mapped_hit(#[trigger] s[i], ms, t);
+                    let k = s[i].0; let v = *s[i].1;
+                    let u1 = choose|u1: Seq<u32>| #[trigger] v@.contains(u1) && u1.len() == ms1.len() && forall|j: int| 0 <= j < ms1.len() ==> map_el(ms1[j], u1[j]) == Some(t.skip(1)[j]);
+                    let u = cons(k, u1);
+                    lemma_cons(k, u1);
+                    assert(src@.contains(u));
+                    assert forall|j: int| 0 <= j < ms.len() implies map_el(ms[j], u[j]) == Some(t[j]) by {
+                        if j > 0 { assert(ms[j] == ms1[j - 1] && u[j] == u1[j - 1] && t[j] == t.skip(1)[j - 1]); }
+                    }
+                }
+                if mapped_set(src@, ms).contains(t) {
+                    let u = choose|u: Seq<u32>| #[trigger] src@.contains(u) && u.len() == ms.len() && forall|j: int| 0 <= j < ms.len() ==> map_el(ms[j], u[j]) == Some(t[j]);
+                    let k = u[0]; let u1 = u.skip(1);
+                    let i = choose|i: int| 0 <= i < s.len() && (#[trigger] s[i]).0 == k;
+                    let v = *s[i].1;
+                    assert(v@.contains(u1));
+                    assert forall|j: int| 0 <= j < ms1.len() implies map_el(ms1[j], u1[j]) == Some(t.skip(1)[j]) by {
+                        assert(ms1[j] == ms[j + 1] && u1[j] == u[j + 1] && t.skip(1)[j] == t[j + 1]);
+                    }
+                    assert(mapped_set(v@, ms1).contains(t.skip(1)));
+                    assert(Self::mapped_hit(s[i], ms, t));
+                }
+            }
+        }
+    }
+""" % dict(CH='PrefixTree%d' % (n - 1), N=n)
+
+
+def c_mapped(n):
+    maps = ['map%d' % i for i in range(n)]
+    ms = 'seq![' + ', '.join(maps) + ']' if n else 'Seq::<Option<PrefixTree2>>::empty()'
+    req = 'requires ' + ', '.join(['self.wf()'] + ['mwf(%s)' % m for m in maps]) + ','
+    return ('r', req + '\n        ensures r.wf(), r@ =~= mapped_set(self@, %s),' % ms)
+
+
+def annotate_mapped(F, S, n):
+    maps = ['map%d' % i for i in range(n)]
+    MS = 'seq![' + ', '.join(maps) + ']'
+    MS1 = 'seq![' + ', '.join(maps[1:]) + ']'
+    if n == 0:
+        S(F('mapped'), c_mapped(0)).tail("""proof {
+            let e = Seq::<Option<PrefixTree2>>::empty();
+            reveal(mapped_set);
+            assert forall|t: Seq<u32>| self@.contains(t) <==> mapped_set(self@, e).contains(t) by {
+                if mapped_set(self@, e).contains(t) {
+                    let u = choose|u: Seq<u32>| #[trigger] self@.contains(u) && u.len() == 0;
+                    assert(u =~= t);
+                }
+            }
+        }""")
+        return
+    if n == 1:
+        it = S(F('mapped'), c_mapped(1))
+        it.wrap('None => ', 'self.clone()', """proof {
+                    reveal(mapped_set);
+                    assert forall|t: Seq<u32>| self@.contains(t) <==> mapped_set(self@, seq![map0]).contains(t) by {
+                        if self@.contains(t) { assert(map_el(seq![map0][0], t[0]) == Some(t[0])); }
+                        if mapped_set(self@, seq![map0]).contains(t) {
+                            let u = choose|u: Seq<u32>| #[trigger] self@.contains(u) && u.len() == 1 && forall|i: int| 0 <= i < 1 ==> map_el(seq![map0][i], u[i]) == Some(t[i]);
+                            assert(map_el(seq![map0][0], u[0]) == Some(t[0]));
+                            assert(u =~= t);
+                        }
+                    }
+                }""")
+        it.after('let mut result = Self::new();', """proof {
+                    assert forall|y: u32| !result.set@.contains(y) by { if result.set@.contains(y) { assert(result@.contains(seq![y])); } }
+                }""")
+        it.for_loop(1, """invariant gi.iter.obeys_prophetic_iter_laws(), result.wf(), self.wf(), map.wf(), map0 == Some(map),
+                        forall|i: int| 0 <= i < gi.seq().len() ==> self.set@.contains(#[trigger] gi.seq()[i]),
+                        forall|k: u32| #[trigger] self.set@.contains(k) ==> exists|i: int| 0 <= i < gi.seq().len() && #[trigger] gi.seq()[i] == k,
+                        forall|y: u32| #[trigger] result.set@.contains(y) <==> exists|i: int| 0 <= i < gi.index@ && #[trigger] map_el(map0, gi.seq()[i]) == Some(y),
+                        gi.index@ == gi.seq().len() ==> result.mapped_enum(*self, map0, gi.seq()),""")
+        it.loop_body_start(1, """let ghost res0 = result;
+                    proof { reveal(PrefixTree1::view); reveal(PrefixTree1::wf); assert(gi.seq()[gi.index@] == el); }""")
+        it.after('result.set.insert(mapped);', 'proof { if set_min(restriction.set@, mapped) { lemma_first_is_min(map, el, *restriction, mapped); } }')
+        it.loop_body_end(1, """proof {
+                        if !(exists|t: Seq<u32>| map@.contains(t) && t[0] == el) { lemma_none_no_img(map, el); }
+                        assert forall|y: u32| #[trigger] result.set@.contains(y) <==> exists|i: int| 0 <= i < gi.index@ + 1 && #[trigger] map_el(map0, gi.seq()[i]) == Some(y) by {
+                            if res0.set@.contains(y) { let i = choose|i: int| 0 <= i < gi.index@ && #[trigger] map_el(map0, gi.seq()[i]) == Some(y); assert(0 <= i < gi.index@ + 1); }
+                            if exists|i: int| 0 <= i < gi.index@ + 1 && #[trigger] map_el(map0, gi.seq()[i]) == Some(y) {
+                                let i = choose|i: int| 0 <= i < gi.index@ + 1 && #[trigger] map_el(map0, gi.seq()[i]) == Some(y);
+                                if i < gi.index@ { assert(res0.set@.contains(y)); }
+                            }
+                        }
+                    }""")
+        # after the loop: the enumeration is complete, the completion lemma turns the loop invariant into the postcondition
+        it.before('result\n            }', 'proof { result.lemma_mapped_done(*self, map0); }')
+        return
+    # the maps are read through PrefixTree1 restrictions (`restriction.set`), so that definition is needed here too
+    it = S(F('mapped'), c_mapped(n), 'proof { reveal(PrefixTree1::view); reveal(PrefixTree1::wf); }')
+    it.for_loop(1, """invariant gi.iter.obeys_prophetic_iter_laws(), result.wf(), self.wf(), %(mwf)s,
+                forall|i: int| 0 <= i < gi.seq().len() ==> self.map@.contains_key((#[trigger] gi.seq()[i]).0) && self.map@[gi.seq()[i].0] == *gi.seq()[i].1,
+                forall|k: u32| #[trigger] self.map@.contains_key(k) ==> exists|i: int| 0 <= i < gi.seq().len() && (#[trigger] gi.seq()[i]).0 == k,
+                forall|t: Seq<u32>| #[trigger] result@.contains(t) <==> exists|i: int| 0 <= i < gi.index@ && Self::mapped_hit(#[trigger] gi.seq()[i], %(MS)s, t),
+                gi.index@ == gi.seq().len() ==> result.mapped_enum(*self, %(MS)s, gi.seq()),""" % dict(mwf=', '.join('mwf(%s)' % m for m in maps), MS=MS))
+    it.loop_body_start(1, """let ghost res0 = result;
+            proof { reveal(PrefixTree%d::view); reveal(PrefixTree%d::wf); reveal(PrefixTree1::wf); assert(gi.seq()[gi.index@] == p__); }""" % (n, n))
+    it.closure('|restriction|', '|restriction: &PrefixTree1| -> (cr: Option<u32>)',
+               """requires restriction.set.wf(), nonempty(restriction@), forall|t: Seq<u32>| #[trigger] restriction@.contains(t) <==> map@.contains(cons(k, t)),
+                        ensures cr == map_el(Some(*map), k),""",
+               tail="""proof {
+                            reveal(PrefixTree1::view);
+                            let w = choose|t: Seq<u32>| restriction@.contains(t);
+                            assert(restriction.set@.contains(w[0]));
+                            if cr__ is Some && set_min(restriction.set@, cr__->0) { lemma_first_is_min(*map, k, *restriction, cr__->0); }
+                        }""")
+    it.before('if let Some(new_k) = new_k_opt {', """proof {
+                if map0 is Some && !(exists|t: Seq<u32>| map0->0@.contains(t) && t[0] == k) { lemma_none_no_img(map0->0, k); }
+            }""")
+    it.loop_body_end(1, """proof {
+                let ms = %(MS)s;
+                assert(ms.skip(1) =~= %(MS1)s);
+                assert forall|t: Seq<u32>| #[trigger] result@.contains(t) <==> exists|i: int| 0 <= i < gi.index@ + 1 && Self::mapped_hit(#[trigger] gi.seq()[i], ms, t) by {
+                    if res0@.contains(t) { let i = choose|i: int| 0 <= i < gi.index@ && Self::mapped_hit(#[trigger] gi.seq()[i], ms, t); assert(0 <= i < gi.index@ + 1); }
+                    if exists|i: int| 0 <= i < gi.index@ + 1 && Self::mapped_hit(#[trigger] gi.seq()[i], ms, t) {
+                        let i = choose|i: int| 0 <= i < gi.index@ + 1 && Self::mapped_hit(#[trigger] gi.seq()[i], ms, t);
+                        if i < gi.index@ { assert(res0@.contains(t)); }
+                    }
+                    if result@.contains(t) { result.lemma_len(t); }
+                }
+            }""" % dict(MS=MS, MS1=MS1))
+    # after the loop: the enumeration is complete, the completion lemma turns the loop invariant into the postcondition
+    it.tail('proof { r__.lemma_mapped_done(*self, %s); }' % MS)
 
 
 def rest_lit(n):
@@ -125,7 +316,7 @@ C_REM_RESTR = (None, '''requires old(self).wf(), restriction.wf(),
         ensures final(self).wf(), final(self)@ =~= old(self)@.difference(prefixed(el0, restriction@)),''')
 
 
-def annotate(src, n, canary):
+def annotate(src, n, canary, with_mapped=True):
     """annotated fn items of PrefixTree<n>, in METHODS order"""
     out = []
     pat = r'impl PrefixTree%d\s*\{' % n
@@ -138,8 +329,12 @@ def annotate(src, n, canary):
         out.append(it)
         return it
 
+    REVEAL = 'proof { reveal(PrefixTree%d::view); reveal(PrefixTree%d::wf); }\n' % (n, n)
+    if n == 1:      # PrefixTree0 (the restrictions of a PrefixTree1) is a bare Option<()>: its two definitions are revealed as well
+        REVEAL += 'proof { reveal(PrefixTree0::view); reveal(PrefixTree0::wf); }\n'
+
     def S(it, c, prelude=''):
-        it.sig(ret=c[0], spec=c[1], prelude=prelude + ('\nassert(false);' if canary else ''))
+        it.sig(ret=c[0], spec=c[1], prelude=REVEAL + prelude + ('\nassert(false);' if canary else ''))
         return it
 
     if n == 0:
@@ -153,6 +348,8 @@ def annotate(src, n, canary):
         S(F('clear'), C_CLEAR)
         S(F('union'), C_UNION)
         S(F('difference'), C_DIFF)
+        if with_mapped:
+            annotate_mapped(F, S, 0)
         return out
 
     if n == 1:
@@ -185,6 +382,8 @@ def annotate(src, n, canary):
         S(F('remove_restriction'), C_REM_RESTR, '''proof {
             assert forall|t: Seq<u32>| t.len() == 1 implies #[trigger] t.skip(1) == Seq::<u32>::empty() by { assert(t.skip(1) =~= Seq::<u32>::empty()); }
         }''')
+        if with_mapped:
+            annotate_mapped(F, S, 1)
         return out
 
     # ---- arity n >= 2: the inner map sends the first column to a PrefixTree<n-1>
@@ -312,6 +511,8 @@ def annotate(src, n, canary):
                 }
             }
         }''' % N)
+    if with_mapped:
+        annotate_mapped(F, S, n)
     return out
 
 
@@ -325,6 +526,9 @@ def build(repo, canary=False, arities=None):
     wbapi.emit(A, repo, canary)
     A.spec(os.path.join(SPECD, 'pt.rs'))
     ar = list(range(MAX_ARITY + 1)) if arities is None else list(arities)
+    wm = 1 in ar and 2 in ar
+    if wm:
+        A.spec(os.path.join(SPECD, 'pt_mapped.rs'))
     for n in ar:
         A.item(src.item(r'pub struct PrefixTree%d\b' % n, name='PrefixTree%d' % n))
         A.text('impl Clone for PrefixTree%d { #[verifier::external_body] fn clone(&self) -> (r: Self) ensures r == *self { unimplemented!() } }\n' % n,
@@ -332,7 +536,9 @@ def build(repo, canary=False, arities=None):
     for n in ar:
         A.text('impl PrefixTree%d {' % n, 'impl block (ghost members + the real functions of all `impl PrefixTree%d` blocks)' % n)
         A.text(ghost_impl(n), 'ghost view / invariant')
-        for it in annotate(src, n, canary):
+        if wm:
+            A.text(ghost_mapped(n), 'ghost vocabulary and completion lemma of `mapped`')
+        for it in annotate(src, n, canary, wm):
             A.item(it)
         A.text('}\n', 'impl close')
     A.text('} // verus!\nfn main() {}\n', 'footer')
